@@ -1,10 +1,172 @@
 import Driver.Common
-/-! Judge for C18: not built yet (stub so that the target exists). -/
+import EgVerif.Spec.ClusterMutex
+import EgVerif.Spec.AdminAPI
+/-! Judges for C18: `C18mutex` (cluster.Mutex on an embedded etcd) and `C18api` (admin API). -/
 open Lean Driver
 
 namespace Driver.C18
 
-def judges : List (String × Judge) := []
+/-! ### mutex -/
+section
+open EgVerif.ClusterMutex
+
+def parseEvents (obs : Json) : Except String (List TEv) := do
+  let a ← getArr obs "events"
+  a.toList.mapM fun e => do
+    let g ← getNat e "g"
+    let k ← getStr e "kind"
+    match k with
+    | "acquired" => pure (.acquired g)
+    | "releasing" => pure (.releasing g)
+    | "failed" => pure (.failed g)
+    | _ => throw s!"event kind {k}"
+
+def judgeMutex : Judge := liftJudge fun input obs => do
+  match obsPanic obs with
+  | some m => pure { agree := false, spec := false, sig := "panic-or-hang:mutex", note := m }
+  | none =>
+  match obs.getObjVal? "error" with
+  | .ok e => pure { agree := false, spec := true, note := "harness: " ++ e.compress, nontrivial := false }
+  | .error _ =>
+  let multi := optBool input "multiObj"
+  let members := (optInt obs "members").toNat
+  let gsJ ← getArr input "gs"
+  let gs ← gsJ.toList.mapM fun g => do
+    let m := (optInt g "member").toNat
+    let o := (optInt g "obj").toNat
+    pure (m % (max members 1), if multi then o else 0)
+  let evs ← parseEvents obs
+  let maxInside := optInt obs "maxInside"
+  let probeJ ← getArr obs "probe"
+  let probe ← probeJ.toList.mapM (·.getBool?)
+  let leftover := optInt obs "leftover"
+  let unlockErrs := optInt obs "unlockErrs"
+  let fails := evs.countP fun e => match e with | .failed _ => true | _ => false
+  let acqs := evs.countP fun e => match e with | .acquired _ => true | _ => false
+  let probeOK := probe.all id && !probe.isEmpty
+  -- configuration of the model: thread g uses object (member, obj), created on session member
+  let objId (g : Nat) : Nat := match gs[g]? with | some (m, o) => m * 8 + o | none => 0
+  let cfg : Cfg := { obj := objId, sess := fun o => o / 8 }
+  let modelOK := (run cfg init (scheduleOf evs)).isSome
+  let excl := exclusiveTrace none evs && maxInside ≤ 1
+  let tags := [s!"members:{members}"] ++ (if fails > 0 then ["timeouts"] else ["no-timeouts"])
+    ++ (if multi then ["neg-config:several-objects-per-member"] else [])
+    ++ (if multi && !excl then ["neg-config:overlap-observed"] else [])
+    ++ (if acqs ≥ 10 then ["acq>=10"] else ["acq<10"])
+    ++ (if unlockErrs != 0 then ["unlock-errors-inconclusive"] else [])
+  if multi then
+    -- outside the hypothesis of `exclusive`: reported only
+    return { agree := true, spec := true, tags := tags, nontrivial := false }
+  if unlockErrs != 0 then
+    return { agree := true, spec := true, tags := tags, nontrivial := false }
+  let free := probeOK && leftover == 0
+  let recovered := failuresRecovered probeOK evs
+  let spec := excl && free && recovered
+  let sig := if spec then "" else
+    if !excl then "mutex:two-holders"
+    else if leftover != 0 then "mutex:key-left-behind"
+    else "mutex:not-free-after-failure"
+  pure { agree := modelOK, spec := spec,
+         expected := Json.mkObj [("modelAcceptsTrace", modelOK), ("maxHolders", (maxHolders 0 0 evs : Nat))],
+         tags := tags, nontrivial := acqs ≥ 2 && gs.length ≥ 2, sig := sig }
+end
+
+/-! ### admin API -/
+section
+open EgVerif.AdminAPI
+
+def parseSeen (s : String) : Option Obj :=
+  match s.splitOn "|" with
+  | [k, p] => some ⟨k, p⟩
+  | _ => none
+
+def opOf (o : Json) : Except String (String × String × Obj × Nat) := do
+  let op ← getStr o "op"
+  pure (op, optStr o "name", ⟨optStr o "kind", optStr o "payload"⟩, (optInt o "server").toNat)
+
+def judgeAPI : Judge := liftJudge fun input obs => do
+  match obsPanic obs with
+  | some m => pure { agree := false, spec := false, sig := "panic-or-hang:api", note := m }
+  | none =>
+  match obs.getObjVal? "error" with
+  | .ok e => pure { agree := false, spec := true, note := "harness: " ++ e.compress, nontrivial := false }
+  | .error _ =>
+  let initJ ← getArr input "init"
+  let clientsJ ← getArr input "clients"
+  let clients ← clientsJ.toList.mapM fun c => match c with
+    | .null => pure #[]
+    | _ => c.getArr?
+  let base := (optInt obs "base").toNat
+  let finalVer := (optInt obs "finalVersion").toNat
+  let resJ ← getArr obs "results"
+  let finJ ← getArr obs "final"
+  let final ← finJ.toList.mapM fun t => do
+    let a ← t.getArr?
+    unless a.size == 3 do throw "final triple"
+    pure ((← a[0]!.getStr?), (⟨← a[1]!.getStr?, ← a[2]!.getStr?⟩ : Obj))
+  -- join results with the request they answer
+  let mut opsRev : List Op := []
+  let mut statuses : List Nat := []
+  let mut bad : List String := []
+  let mut invalidOK := true
+  for r in resJ.toList do
+    let c ← getInt r "client"
+    let i ← getNat r "idx"
+    let reqJ? : Option Json := if c < 0 then initJ[i]? else (clients[c.toNat]?).bind (·[i]?)
+    match reqJ? with
+    | none => bad := "result without request" :: bad
+    | some reqJ =>
+      let (op, name, o, _) ← opOf reqJ
+      let status ← getNat r "status"
+      let ver := (optStr r "version").toNat?
+      let t0 ← getNat r "t0"
+      let t1 ← getNat r "t1"
+      statuses := status :: statuses
+      let kind : OpKind :=
+        match op with
+        | "create" => .mut (.create name o)
+        | "update" => .mut (.update name o)
+        | "delete" => .mut (.delete name)
+        | "get" => .get name (if status == 200 then parseSeen (optStr r "seen") else none)
+        | _ => .other
+      if (op == "badkind" || op == "badname") && status != 400 then invalidOK := false
+      if op == "get" && status != 200 && status != 404 then bad := s!"get status {status}" :: bad
+      if op == "list" && status != 200 then bad := s!"list status {status}" :: bad
+      -- the header of a mutation that did not succeed is the version read before the handler
+      let isMutOK := (op == "create" || op == "update" || op == "delete") && (status == 200 || status == 201)
+      opsRev := { kind := kind, status := status, ver := if isMutOK then ver else none, t0 := t0, t1 := t1 } :: opsRev
+  let ops := opsRev.reverse
+  let nExpected := initJ.size + clients.foldl (fun a c => a + c.size) 0
+  if ops.length != nExpected then bad := s!"{ops.length} results for {nExpected} requests" :: bad
+  let e0 : Etcd := ⟨[], base⟩
+  let hcSpec := checkHistory apply e0 ops final finalVer
+  let hcModel := checkHistory (fun e r => exec r e) e0 ops final finalVer
+  let unexpected := statuses.any fun s => s ≥ 500
+  let spec := hcSpec.all && invalidOK
+  let agree := hcModel.all && invalidOK && bad.isEmpty && !unexpected
+  let sig := if spec then "" else
+    if !hcSpec.haveVersions then "api:success-without-version"
+    else if !hcSpec.gapFree then "api:versions-not-gap-free"
+    else if !hcSpec.enabled then "api:mutation-not-enabled-in-version-order"
+    else if !hcSpec.realTime then "api:version-order-contradicts-real-time"
+    else if !hcSpec.rejectedJustified then "api:rejection-unjustified"
+    else if !hcSpec.readsJustified then "api:read-of-phantom-state"
+    else if !hcSpec.finalStore then "api:final-store-differs-from-fold"
+    else if !hcSpec.finalVersion then "api:final-version"
+    else "api:invalid-request-not-400"
+  let nConc := clients.length
+  let has (s : Nat) : Bool := statuses.contains s
+  let tags := [s!"servers:{optInt obs "servers"}", s!"clients:{nConc}"]
+    ++ (if has 409 then ["409"] else []) ++ (if has 404 then ["404"] else [])
+    ++ (if has 400 then ["400"] else []) ++ (if has 503 then ["503"] else [])
+    ++ (if hcSpec.successes ≥ 8 then ["succ>=8"] else if hcSpec.successes == 0 then ["succ=0"] else ["succ<8"])
+  pure { agree := agree, spec := spec,
+         expected := Json.mkObj [("successes", (hcSpec.successes : Nat)), ("notes", Json.arr (bad.map Json.str).toArray)],
+         tags := tags, nontrivial := nConc ≥ 2 && hcSpec.successes ≥ 2, sig := sig,
+         note := String.intercalate "; " bad }
+end
+
+def judges : List (String × Judge) := [("C18mutex", judgeMutex), ("C18api", judgeAPI)]
 
 end Driver.C18
 
